@@ -376,6 +376,9 @@ func checkPgMsg(kind string, b []byte, honorKnown bool) string {
 			fm.ParseTerminateMsg(b)
 		}
 	})
+	// Bind allocates one buffer + one string per parameter, each bounded by pgmeta.MaxMsgSize (32 MiB) whatever the
+	// payload holds: up to 64 MiB for a 20-byte message. That is a documented constant bound; the limit here is 96 MiB.
+	r.base = 96 << 20
 	return r.verdict(fmt.Sprintf("fmessages parser of a %q message, payload %s", kind, hexs(b)), len(b))
 }
 
